@@ -481,7 +481,7 @@ _R12 = {
     "C03": " Job sock: a UDP tunnel through a kernel socket with traffic in both directions (40..300 events out, indications in, stop-and-wait) against a loopback gateway that checks every datagram (one well-formed frame), consecutive request numbers and octet-identical repetitions.",
     "C04": " The loopback gateways of the socket job write 0x00/0x01/0x80/0xff into the reserved octet of the connection header of their requests.",
     "C05": " A quarter of the plans are C17 plans (bursts, stalls of the application, repetitions of the last request, disconnect requests between bursts) judged under the symmetric clause: order oracle plus receiver model.",
-    "C07": " Per main number 8 goroutines decode, encode and render their own values 400 times; every encoding and rendering is compared with the one made alone.",
+    "C07": " Per main number 8 goroutines decode, encode and render their own values 1000 times; every encoding and rendering is compared with the one made alone.",
     "C08": " 40 (thorough: 400) fresh child processes in which 16 goroutines walk through all types behind a barrier per type, so that the first decode + String()/Unit()/Pack() of every type in the process is concurrent; the texts must equal a later sequential rendering.",
     "C09": " Within an epoch the request behind one whose Send succeeded carries the next number (counter-restarted). A sixth of the UDP plans are 2..4 connections that come and go without a Send, followed by 3..5 acknowledged Sends.",
     "C12": " In the tunnel mode of the socket job the gateway ends the connection in the middle of half of the plans; the client reconnects, both sides restart their numbering, the remaining events follow.",
